@@ -20,7 +20,41 @@ def sh(cmd, cwd=None, timeout=1800):
     except subprocess.TimeoutExpired as e:
         return 124, (e.stdout or "") + "\nTIMEOUT"
 
+def detect_only():
+    """seedtest.py --detect-only [ids...]: for every /verif/seeded/<id>: apply patch.diff to a scratch worktree of
+    /repo HEAD, run the quick tier of the property's check on it, record the outcome in meta.json (detection)."""
+    only = set(sys.argv[2:])
+    base = os.path.join(VERIF, "seeded")
+    for sid in sorted(os.listdir(base)):
+        d = os.path.join(base, sid)
+        mp = os.path.join(d, "meta.json")
+        if not os.path.exists(mp) or (only and sid not in only):
+            continue
+        meta = json.load(open(mp))
+        prop = meta["property"]
+        wt = f"/tmp/mw-{sid}"
+        sh(f"git -C /repo worktree remove --force {wt}")
+        shutil.rmtree(wt, ignore_errors=True)
+        sh(f"git -C /repo worktree add -q --detach {wt} HEAD")
+        rc, out = sh(f"git apply {d}/patch.diff", cwd=wt)
+        if rc != 0:
+            meta["detection"] = {"error": "patch does not apply to /repo HEAD", "out": out[-400:]}
+        else:
+            t0 = time.time()
+            rc, out = sh(f"{VERIF}/bin/vcheck {prop} --tier quick --repo {wt}", cwd=VERIF, timeout=3000)
+            sigs = sorted(set(l.strip()[len("signature: "):] for l in out.splitlines() if l.strip().startswith("signature: ")))
+            meta["detection"] = {"check": f"bin/vcheck {prop} --tier quick --repo <patched worktree>", "exit": rc, "signatures": sigs[:8], "wall_s": round(time.time() - t0),
+                                 "repo_head": sh("git -C /repo rev-parse --short HEAD")[1].strip(), "verif_head": sh("git -C /verif rev-parse --short HEAD")[1].strip()}
+            if rc not in (0, 1):
+                meta["detection"]["tail"] = out[-600:]
+        json.dump(meta, open(mp, "w"), indent=1)
+        sh(f"git -C /repo worktree remove --force {wt}")
+        shutil.rmtree(wt, ignore_errors=True)
+        print(sid, prop, meta["detection"].get("exit"), meta["detection"].get("signatures", meta["detection"].get("error")), flush=True)
+
 def main():
+    if sys.argv[1] == "--detect-only":
+        return detect_only()
     root, outfile = sys.argv[1], sys.argv[2]
     only = set(sys.argv[3:])
     results = json.load(open(outfile)) if os.path.exists(outfile) else {}
